@@ -365,6 +365,9 @@ func (fv *FuncVC) objVal(env *SpecEnv, o types.Object) (Val, bool) {
 // resolveSourceName finds the SSA value of a source-level variable at the program point env.at.
 func (fv *FuncVC) resolveSourceName(env *SpecEnv, name string) (Val, bool) {
 	fr := env.fr
+	if a, ok := fv.aliases[name]; ok {
+		name = a
+	}
 	// $i: range index of the loop
 	if strings.HasPrefix(name, "$i") {
 		var li *loopInfo
@@ -1365,6 +1368,11 @@ func (fv *FuncVC) checkPost(fr *Frame, b *ssa.BasicBlock, st *State, reach strin
 		env.useWitness = true
 		t := fv.evalClause(env, e)
 		env.useWitness = false
+		if e.Trusted {
+			fv.assumed["trusted clause "+shortFuncName(fr.fn)+" ["+e.Label+"] "+e.Text] = true
+			fv.ctx.Assume(Implies(reach, t))
+			continue
+		}
 		fv.oblige("post", clauseLabel(e), reach, t, e.Text, pos)
 		// later clauses may rely on earlier ones (each is still an obligation of its own)
 		fv.ctx.Assume(Implies(reach, t))
